@@ -12,7 +12,8 @@ id allocation) are *silent*: they execute together with the preceding gate opera
 goroutine released from a storage gate runs until its next storage call.
 
 Tokens and leases are ordinals in creation order (`0` is the root token). The state keeps both spellings
-of the `tokensPendingDeletion` key (`PKey.salted`, `PKey.raw`) because the code uses both.
+of the `tokensPendingDeletion` key (`PKey.salted`, `PKey.raw`): the code used both until commit 17ec2c3 (F2);
+the harness still lists both, so a write under the raw id shows as a mismatch.
 Listing order is the order of the salted ids, which is random: it is an input (`skey`, `lkey`).
 -/
 namespace Obao.Revoke
@@ -280,13 +281,13 @@ def createOrFetch (t : Nat) : Prog Unit := do
   | some _ => pure ()
   | none => putKey (.tl t) (.tl true)
 
-/-- `revokeInternal`, the marker write: `NumUses = tokenRevocationPending`; on failure the map is reset under
-`entry.ID` (not the salted id the map is keyed by) -/
+/-- `revokeInternal`, the marker write: `NumUses = tokenRevocationPending`; on failure the map is reset under the
+salted id (commit 17ec2c3; before it the reset went to `entry.ID`, a key nobody reads: F2) -/
 def riMark (t : Nat) (e : TokEntry) : Prog Unit :=
   if !e.marked then
     (putKey (.id t) (.tok { e with marked := true })).bindE fun
       | .ok () => pure ()
-      | .error err => do pendStore (.raw t) false; fail err      -- `Store(entry.ID, false)`
+      | .error err => do pendStore (.salted t) false; fail err   -- `Store(saltedID, false)` (was entry.ID: F2, fixed 17ec2c3)
   else pure ()
 
 /-- `revokeInternal`, the part guarded by the deferred function; `ol` is the orphaning loop -/
@@ -310,6 +311,16 @@ def riFinish (t : Nat) (r : Except Err Unit) : Prog Unit :=
       | .ok () => do pendDel (.salted t); pure ()
       | .error err => do pendStore (.salted t) false; fail err
   | .error err => do pendStore (.salted t) false; fail err
+
+/-- `revokeInternal` after its own `lookupInternal`: a lookup error resets the map (commit 17ec2c3; before it the
+error returned with the state still `true`: F36); a missing entry returns WITHOUT resetting it (F35) -/
+def riAfterLookup (t : Nat) (skipOrphan : Bool) (ol : List Nat → Prog Unit) : Except Err (Option TokEntry) → Prog Unit
+  | .error err => do pendStore (.salted t) false; fail err
+  | .ok none => pure ()
+  | .ok (some e) => do
+    riMark t e
+    -- from here on the deferred function runs
+    (riBody t e skipOrphan ol).bindE (riFinish t)
 
 mutual
 
@@ -376,12 +387,7 @@ def revokeInternal : Nat → Nat → Bool → Prog Unit
   | f+1, t, skipOrphan => do
     let (loaded, state) ← pendLOS (.salted t)
     if loaded && state then pure () else
-    match ← lookup f t true with            -- an error here returns without resetting the map
-    | none => pure ()                        -- ... and so does a missing entry
-    | some e => do
-      riMark t e
-      -- from here on the deferred function runs
-      (riBody t e skipOrphan (orphanLoop f)).bindE (riFinish t)
+    (lookup f t true).bindE (riAfterLookup t skipOrphan (orphanLoop f))
 
 /-- the orphaning loop of `revokeInternal` (`!skipOrphan`) -/
 def orphanLoop : Nat → List Nat → Prog Unit
